@@ -121,7 +121,7 @@ func (tr *Tr) freshSym(hint string, bool_ bool) string {
 }
 
 func (tr *Tr) nameBool(hint, term string) string {
-	if term == "true" || term == "false" || !strings.HasPrefix(term, "(") {
+	if term == "true" || term == "false" || !strings.HasPrefix(term, "(") || tr.specMode > 0 {
 		return term
 	}
 	sym := tr.freshSym(hint, true)
@@ -357,6 +357,14 @@ func (tr *Tr) mergeLeaf(hint string, isBool bool, sort string, terms []string, g
 	}
 	if same {
 		return terms[0]
+	}
+	if tr.specMode > 0 {
+		// pure terms only: contract expressions may contain bound variables, so nothing is named
+		acc := terms[len(terms)-1]
+		for i := len(terms) - 2; i >= 0; i-- {
+			acc = sIte(guards[i], terms[i], acc)
+		}
+		return acc
 	}
 	var sym string
 	if sort != "" {
